@@ -177,7 +177,15 @@ impl Tunnel {
                         request.fail_request(err);
                         return;
                     }
-                    (Err(e), ..) => {
+                    (Err(e), _, Some(_)) => {
+                        // credentials the endpoint cannot read are credentials it does not accept
+                        log_id!(debug, request_id, "Failed to get auth info: {}", e);
+                        request.fail_request(ConnectionError::Authentication(
+                            "Malformed authentication info".to_string(),
+                        ));
+                        return;
+                    }
+                    (Err(e), _, None) => {
                         log_id!(debug, request_id, "Failed to get auth info: {}", e);
                         request.fail_request(ConnectionError::Io(e));
                         return;
